@@ -25,6 +25,8 @@ var c03Actions = []string{
 	"C.DropIndexByKey({n:1})",
 	"A.FindOneAndUpdate($inc n) with a rejected projection",
 	"A.CreateIndex({m:1}) with the session's context while its transaction is open",
+	// a bulk write whose only effect is a document created by an upsert
+	"A.BulkWrite(upserting replace of a missing _id, update of a missing _id)",
 }
 
 type c03Doc struct{ id, n int32 }
@@ -217,9 +219,18 @@ func (r *c03Runner) Step(a int) bool {
 			r.open, r.dirty = true, false
 			r.view = append([]c03Doc{}, r.commit...)
 		}
-	case 1, 2, 3, 14, 15:
+	case 1, 2, 3, 14, 15, 19:
 		var err error
+		op := a
 		switch a {
+		case 19:
+			// the same document an insert would have created
+			op = 1
+			doc := c03NewDoc(r.nextID)
+			_, err = coll.BulkWrite(r.sctx, []mongo.WriteModel{
+				mongo.NewReplaceOneModel().SetFilter(bD("_id", r.nextID)).SetReplacement(doc[1:]).SetUpsert(true),
+				mongo.NewUpdateOneModel().SetFilter(bD("_id", int32(-1))).SetUpdate(bD("$set", bD("z", int32(1)))),
+			})
 		case 14:
 			_, err = coll.DeleteMany(r.sctx, bD("n", bD("$lt", int32(0))))
 		case 15:
@@ -235,17 +246,17 @@ func (r *c03Runner) Step(a int) bool {
 			_, err = coll.DeleteOne(r.sctx, bD())
 		}
 		if r.open {
-			next, changed := apply(r.view, a)
+			next, changed := apply(r.view, op)
 			r.view = next
 			r.dirty = r.dirty || changed
 			if err != nil {
 				r.viol("txn-write-error:"+name, fmt.Sprintf("%s inside the transaction failed: %v", name, err))
 			}
-			if a == 1 {
+			if op == 1 {
 				r.nextID++
 			}
 		} else {
-			autoCommit(a, err)
+			autoCommit(op, err)
 		}
 	case 4:
 		err := r.sess.CommitTransaction(context.Background())
